@@ -205,6 +205,18 @@ def gen(rng, n_state, n_e2e):
                 kt = k0 + math.ceil(T / dt) + rng.choice([0, 1, 1, 2])
                 case["n_inc"] = max(n_inc, kt + 4)
                 case["faults"] = {str(k0): [["line", rng.choice(prim).name, "6"]], str(kt): [["line", tl.name, str(rng.choice([F(1), F(2)]))]]}
+        if ties and len(cases) % 3 == 0:
+            # two iterations on the same objects (the simulator's own run_iteration): the first one ends in the middle of an outage,
+            # with a backup line closed; the second one starts from reset_system
+            import math
+            T = F(spec["ctrl"]["T"]); dt = F(case["dt"])
+            tl = rng.choice(ties)
+            prim = [l for l in ps.lines if not l.is_backup and l.parent_network is not None and not l.circuitbreaker and (tl.fbus in (l.fbus, l.tbus) or tl.tbus in (l.fbus, l.tbus))] \
+                or [l for l in ps.lines if not l.is_backup and l.parent_network is not None]
+            k0 = rng.randint(2, 3)
+            case["n_inc"] = k0 + math.ceil(T / dt) + rng.choice([2, 3])
+            case["faults"] = {str(k0): [["line", rng.choice(prim).name, "30"]]}
+            case["iters"] = 2
         cases.append(case)
     return cases
 
